@@ -252,6 +252,36 @@ Proof.
     destruct (mgs_loop sk _ sts 0) as [[] ?]; discriminate.
 Qed.
 
+(* --- repeated solve() on one object *)
+(* the state a run hands to the next call: the lower bound, which is fixed by the auxiliary phase alone —
+   the statuses of the main loop (the inconclusive one included) leave no trace in it *)
+Theorem failed_run_leaves_no_trace sk ex P sts :
+  lbk (fd_solve sk ex P sts) =
+  match lb_phase sk ex (use_mgs P) (lb0 P) (nweights P) sts with LB lb _ => lb | _ => lb0 P end.
+Proof.
+  unfold fd_solve.
+  destruct (lb_phase sk ex (use_mgs P) (lb0 P) (nweights P) sts) as [lb n1|n|n]; try reflexivity.
+  destruct (guessed P).
+  - destruct (skipn n1 sts) as [|y sts2]; [reflexivity|].
+    destruct (kloop _ (over P) (krange lb (upper (upper_excl P) (nedges P))) sts2 (S n1)). reflexivity.
+  - destruct (kloop (greedy P) (over P) (krange lb (upper (upper_excl P) (nedges P))) (skipn n1 sts) n1). reflexivity.
+Qed.
+
+(* and a later call that starts from such a state (no solved guessed-weights model kept) is exactly a
+   fresh run whose solver-free lower bound is the cached one: all theorems about fd_solve apply to it *)
+Theorem resolve_is_fresh_run sk ex P lb sts :
+  fd_resolve P lb None sts =
+  fd_solve sk ex (mkfd lb (upper_excl P) (nedges P) false (nweights P) (guessed P) (gw_paths P) (greedy P) (over P)) sts.
+Proof.
+  unfold fd_resolve, fd_solve, lb_phase. cbn [use_mgs lb0 guessed skipn gw_paths greedy over upper_excl nedges].
+  destruct (guessed P); [|reflexivity]. destruct sts as [|r sts2]; reflexivity.
+Qed.
+
+Corollary resolve_main_inconclusive P lb sts p :
+  inconclusive_at sts p -> aux (fd_resolve P lb None sts) <= p < used (fd_resolve P lb None sts) ->
+  so_res (fd_resolve P lb None sts) = NotSolved.
+Proof. rewrite (resolve_is_fresh_run false false). apply fd_main_inconclusive. Qed.
+
 (* --- MinFlowDecomp *)
 Definition mfd_view (P : fd_params) : fd_params :=
   mkfd (lb0 P) (upper_excl P) (nedges P) (use_mgs P) (nweights P) (guessed P) (gw_paths P) (greedy P) never.
